@@ -797,6 +797,41 @@ def _allocated_as(cname):
     return view
 
 
+def _heap_of(cname, field, vty):
+    return lambda ex, st, self: Val(Map(Ref(cname), vty), ex.field_array(st, cname, field))
+
+
+class _AnyObjectMap:
+    """run-time value of a whole-heap view: indexing gives a constant (frame clauses over the whole heap are logical only)"""
+
+    def __getitem__(self, o):
+        return None
+
+    def __deepcopy__(self, memo):
+        return self
+
+
+# (MathObj.contours / .components are declared further down; the views read the class registry when they are used)
+_FRAME_FIELDS = {"h_data": ("MathObj", "data", MDATA), "h_kind": ("MathObj", "kind", INT), "h_contours": ("MathObj", "contours", List(INT)),
+                 "h_components": ("MathObj", "components", List(INT)), "h_pairs": ("Location", "pairs", KEY)}
+cls(
+    "AllocView",
+    derived={"allocated": _allocated_as("MathObj"), "allocated_locations": _allocated_as("Location"), **{k: _heap_of(*v) for k, v in _FRAME_FIELDS.items()}},
+    views={"allocated": lambda o: _Everything(), "allocated_locations": lambda o: _Everything(), **{k: (lambda o: _AnyObjectMap()) for k in _FRAME_FIELDS}},
+    notes="specification-only handle on the set of currently existing objects and on the heap fields that the collect_* functions write "
+    "(used in loop invariants: objects that existed at entry keep their fields)",
+)
+_ALLOC_VIEW = Val(Ref("AllocView"), z3.Const("alloc_view", T.RefSort))
+
+
+def frame_ghosts(fields):
+    """ghost snapshots of whole heap fields at function entry + the loop invariant "every object that existed at entry still has its value" """
+    gv = {"F0_" + f: (Map(Ref(_FRAME_FIELDS[f][0]), _FRAME_FIELDS[f][2]), "alloc_view." + f) for f in fields}
+    dom = {"MathObj": "alloc_view.allocated", "Location": "alloc_view.allocated_locations"}
+    inv = {"frame." + f: f"all(implies(not fresh(o), alloc_view.{f}[o] == F0_{f}[o]) for o in {dom[_FRAME_FIELDS[f][0]]})" for f in fields}
+    return gv, inv
+
+
 cls("SrcInfo", fields={"data": MDATA}, notes="font.info of a source: abstract content")
 cls("SrcKerning", fields={"data": MDATA}, notes="font.kerning of a source: abstract content")
 cls("SrcGroups", fields={"data": MDATA, "nonempty": BOOL}, truth=lambda ex, st, v: ex.read_field(st, v, "nonempty").term,
@@ -932,10 +967,13 @@ def _collect_contract(fn, ctor_clause, extra_locals=None):
                     "alive": "all(locations_and_masters[k][0] in designspace.allocated_locations and locations_and_masters[k][1] in designspace.allocated"
                     " and fresh(locations_and_masters[k][0]) and fresh(locations_and_masters[k][1]) for k in range(len(locations_and_masters)))",
                     "entries": f"all(implies(has_font_data({_S}[a], {_D}), " + entry.format(L="locations_and_masters") + ") for a in range(i))",
+                    # frame: the new objects are the only ones written
+                    **frame_ghosts(["h_data", "h_kind", "h_pairs"])[1],
                 },
             )
         },
-        globals={"fresh": rt_fresh, **_ACCESSORS},
+        globals={"fresh": rt_fresh, "alloc_view": _ALLOC_VIEW, **_ACCESSORS},
+        ghost_vars=frame_ghosts(["h_data", "h_kind", "h_pairs"])[0],
     )
 
 
@@ -1156,9 +1194,7 @@ def _mathglyph(ex, st, args, kwargs, node):
 
 
 LAYERS = List(Tuple(Ref("Location"), Ref("Layer")))
-cls("AllocView", derived={"allocated": _allocated_as("MathObj"), "allocated_locations": _allocated_as("Location")},
-    notes="specification-only handle on the set of currently existing objects (used in loop invariants)")
-_ALLOC_VIEW = Val(Ref("AllocView"), z3.Const("alloc_view", T.RefSort))
+
 
 
 @specfn(BOOL, layers=LAYERS, a=INT, name=STR)
@@ -1258,11 +1294,13 @@ contract(
                 "alive": "all(locations_and_masters[k][0] in alloc_view.allocated_locations and locations_and_masters[k][1] in alloc_view.allocated for k in range(len(locations_and_masters)))",
                 "new": "all(fresh(locations_and_masters[k][0]) and fresh(locations_and_masters[k][1]) for k in range(len(locations_and_masters)))",
                 "kinds": "all(locations_and_masters[k][1].kind == 0 for k in range(len(locations_and_masters)))",
+                **frame_ghosts(["h_data", "h_kind", "h_contours", "h_components", "h_pairs"])[1],
                 "entries": f"all(implies({_HAS.format('a')}, " + _GM_ENTRY.format(L="locations_and_masters") + ") for a in range(j))",
             },
         )
     },
     globals={"fresh": rt_fresh, "alloc_view": _ALLOC_VIEW, **_ACCESSORS},
+    ghost_vars=frame_ghosts(["h_data", "h_kind", "h_contours", "h_components", "h_pairs"])[0],
 )
 
 
